@@ -27,6 +27,10 @@ def gen_cases(ctx, n):
     ]
     for c in fixed:
         yield c
+    # inline `-- sqlfluff:` directives must be honoured the same way by every entry point
+    for sql in ["-- sqlfluff:rules:AM06\nSELECT a  FROM t\n", "-- sqlfluff:exclude_rules:LT01\nSELECT a  FROM t\n",
+                "-- sqlfluff:rules:LT01\nSELECT a, b FROM t GROUP BY a, 2\n", "-- sqlfluff:max_line_length:10\nSELECT a FROM t\n"]:
+        yield dict(sql=sql, warnings=None, ignore=None, fix_even=False, templater="raw")
     # files in which every violation is suppressed by construction (each line names all codes that can fire on it)
     sup_lines = ["SELECT a  FROM t WHERE ( -- noqa: LT01,PRS\n", "SELECT a  FROM t WHERE ( -- noqa: PRS,LT01\n", "SELECT a  ,b FROM t -- noqa: LT01,AM06,PRS\n",
                  "SELECT a  FROM t WHERE ( -- noqa: layout.spacing,PRS\n", "SELECT a  FROM t WHERE ( -- noqa: L*,PRS\n", "SELECT a  FROM t WHERE ( -- noqa\n",
